@@ -1034,6 +1034,19 @@ func genTxns(r *vh.Rand, w *world, round int64, p plan) []txn {
 				t.Entries = []sosEntry{{To: otherMiner(from), Kind: "nil"}}
 			}
 			t.Entries[0].Kind = "share"
+		case "own-bad", "own-bad-k", "foreign-bad":
+			// K-2 (own-bad-k: K-1) genuine entries for other members plus one entry with invalid content keyed by the
+			// sender's own id (foreign-bad: by an id outside the DKG set): the count reaches K-1 (K) only with that entry
+			keepN := max(d.K-2, 0)
+			if flavour == "own-bad-k" {
+				keepN = max(d.K-1, 0)
+			}
+			t.Entries = t.Entries[:min(len(t.Entries), keepN)]
+			to := from
+			if flavour == "foreign-bad" {
+				to = 0
+			}
+			t.Entries = append(t.Entries, sosEntry{To: to, Kind: []string{"badshare", "badsign", "badhex"}[r.Intn(3)]})
 		case "others-mpk":
 			t.SosID = otherMiner(from)
 			for i := range t.Entries {
@@ -1118,6 +1131,12 @@ func genTxns(r *vh.Rand, w *world, round int64, p plan) []txn {
 				fl = "nil"
 			case x == 5:
 				fl = "others-mpk"
+			case x == 6 || x == 7:
+				fl = "own-bad"
+			case x == 8:
+				fl = "own-bad-k"
+			case x == 9:
+				fl = "foreign-bad"
 			}
 			t := sos(m, fl)
 			if r.Chance(1, 60) {
